@@ -20,33 +20,33 @@ add("C19", 'xenum', 'exploration',
     'DESIGN.md 4 C19')
 
 add("C01", 'xenum+seqx', 'exploration',
-    'bounded exhaustive enumeration of honest issuance flows (type x key x challenge length x nonce x entropy x batch x origin x blind alphabets, keys with truncated id 00/ff found by search, special origin names, the empty challenge as nil and as empty slice) on the real code with every message crossing the wire as bytes, plus all sequences (length 2..3/4) of issuances that share the issuer-side request object or are in flight together, plus the life of one type-3 client object across origins registered late and issuers with sibling token keys',
+    'bounded exhaustive enumeration of honest issuance flows (type x key x challenge length x nonce x entropy x batch x origin x blind alphabets, keys with truncated id 00/ff found by search, special origin names, the empty challenge as nil and as empty slice, type-3 blinds that are not group scalars) on the real code with every message crossing the wire as bytes, plus all sequences (length 2..3/4) of issuances that share the issuer-side request object or are in flight together, plus the life of one type-3 client object across origins registered late and issuers with sibling token keys',
     "Every tuple of the per-type alphabets is run client -> bytes -> decoder -> issuer (-> attester for type 3) -> bytes -> client; the token must have the exact layout and verify under an independent verifier (crypto/rsa PSS; RFC 9497 evaluation recomposed from group primitives) and under the issuer's own Verify. Callers reuse their argument buffers after every call; issuers reuse their decoder object; several requests are evaluated before the first is finalized.",
     'Keys, nonces, challenges and blinds are fixed alphabets of representatives (boundary scalars 1, 2, N-1, leading-zero, DRBG); entropy is a SHA-256 counter DRBG installed in crypto/rand.Reader.',
     'DESIGN.md 4 C01, 9.2b')
 
 add("C03", 'xenum+guard', 'exploration',
-    'bounded exhaustive enumeration of byte strings (all strings over a 12-byte alphabet up to length 4/5; every truncation, extension, length-field value up to 2^62-1 in every encoding, byte substitution and bit flip of valid messages; boundary (r,s) pairs as raw, DER and inside requests; correctly encrypted and signed requests with malformed inner plaintexts and with unusual padded origin fields; well-formed SubjectPublicKeyInfo of foreign key types and of RSA keys with degenerate integers; separator characters of textual parts singly and doubled; length-prefixed parts resized consistently) against 36 byte-consuming entry points, each call guarded for panic, allocation and termination in single-threaded worker subprocesses under an address-space limit',
+    'bounded exhaustive enumeration of byte strings (all strings over a 12-byte alphabet up to length 4/5; every truncation, extension, length-field value up to 2^62-1 in every encoding, byte substitution and bit flip of valid messages; boundary (r,s) pairs as raw, DER and inside requests; correctly encrypted and signed requests with malformed inner plaintexts and with unusual padded origin fields; well-formed SubjectPublicKeyInfo of foreign key types and of RSA keys with degenerate integers; separator characters of textual parts singly and doubled; length-prefixed parts resized consistently) against 44 byte-consuming entry points, each call guarded for panic, allocation and termination in single-threaded worker subprocesses under an address-space limit',
     'For every target and every generated input: no panic (recovered and reported), no fatal runtime error (a worker killed by the runtime is attributed to the journaled case), TotalAlloc delta within 1 MiB + 64*len (steps) / 64 KiB + 16*len (decoders), and return within the watchdog. About 0.8M calls quick, several million thorough.',
     'Arbitrary bytes are represented by the structured generators, not by all 256^n strings; allocation is measured per call with runtime.MemStats in a GOMAXPROCS=1 worker; non-termination means no progress of a worker for 60 s in the sweep and no return within 120 s in the isolated confirmation.',
     'DESIGN.md 4 C03, 9.2')
 add("C10", "xenum", "exploration",
-    "bounded exhaustive enumeration of tokens (every single-bit flip of honest tokens, full token x issuer-key matrix incl. cross-type, hand-built Token structs with moved field boundaries; every sequence up to depth 3/4 over an 11-letter menu of presentations (incl. the bytes of an accepted token cut at other field boundaries) on ONE issuer object) against type-1/type-5 issuer Verify with the RFC 9497 evaluation recomposed from group primitives as accept/reject oracle",
+    "bounded exhaustive enumeration of tokens (every single-bit flip of honest tokens, full token x issuer-key matrix incl. cross-type, hand-built Token structs with moved field boundaries; decoded tokens whose fields are assigned before Verify; every sequence up to depth 3/4 over an 11-letter menu of presentations (incl. the bytes of an accepted token cut at other field boundaries) on ONE issuer object) against type-1/type-5 issuer Verify with the RFC 9497 evaluation recomposed from group primitives as accept/reject oracle",
     "Verify's verdict must equal 'authenticator == VOPRF(key, type||nonce||context||keyid as carried)' on every case; the verdict on a token does not depend on what the issuer object was shown before; both verdict classes are populated (recomputed authenticators for foreign keys/types form the accept class).",
     "Reference VOPRF shares circl's group arithmetic with the implementation; keys and inputs are fixed alphabets.",
     "DESIGN.md 4 C10")
 add("C11", "xenum", "exploration",
     "bounded exhaustive enumeration of (type x key x input x salt x batch size x ordered pairs of blinds) with caller-supplied blinds plus all shipped interop vectors, comparing request and token bytes across repetitions, interleaved unrelated calls and blinds",
     "Request creation must be a pure function of its arguments and the finalized token identical under every blind and on every run; the 3 Rust vectors and the 20 Go vectors must reproduce byte for byte (request, decoded response finalization, token).",
-    "Blind alphabets are boundary scalars plus DRBG values, for RSA also N-1 and respellings of one integer with leading zero bytes (same request required); a blind repeated within a batch; degenerate blinds (nil, empty, zero, order/modulus, wrong lengths and counts) must give the same outcome on every call; 'every run' is observed as repeated in-process issuance under different issuer randomness.",
+    "Blind alphabets are boundary scalars plus DRBG values, for RSA also N-1 and respellings of one integer with leading zero bytes (same request required); a blind repeated within a batch; degenerate salts; degenerate blinds (nil, empty, zero, order/modulus, wrong lengths and counts) must give the same outcome on every call; 'every run' is observed as repeated in-process issuance under different issuer randomness.",
     "DESIGN.md 4 C11")
 add("C18", "xenum", "exploration",
-    "bounded exhaustive enumeration of RSA public keys (every modulus bit length 16..2100/4104 x 4 value patterns x 9 exponents (incl. 0, 1, 2), moduli up to 20000 bits, OPRF keys found by search whose serialised public key starts or ends with a zero byte, a key object refilled in place, plus 10 exponents whose DER ends in bytes that text handling trims), VOPRF keys and name keys against a hand-written DER/TLV reference and independent key-id computation",
+    "bounded exhaustive enumeration of RSA public keys (every modulus bit length 16..2100/4104 x 4 value patterns x 9 exponents (incl. 0, 1, 2), moduli up to 20000 bits, OPRF keys found by search whose serialised public key starts or ends with a zero byte, a key object refilled in place, moduli containing PEM text, plus 10 exponents whose DER ends in bytes that text handling trims), VOPRF keys and name keys against a hand-written DER/TLV reference and independent key-id computation",
     "Both SPKI forms round-trip; the RSASSA-PSS form is byte-identical to hand-assembled DER with the literal RFC 9578 AlgorithmIdentifier; each issuer TokenKeyID equals SHA-256 of the independently serialised public key; requests of types 1/2/5 carry its last byte; type-3 requests carry SHA-256 of the name key bytes the issuer published (hand-built for every key id x KEM x KDF x AEAD), also when one client object uses several name keys in turn, and a decoded name key serialises back to those bytes.",
     "Trusted: the hand DER encoder and the 63-byte AlgorithmIdentifier literal in checks/c18; crypto/elliptic for the P-384 public key reference.",
     "DESIGN.md 4 C18")
 add("C20", 'xenum', 'exploration',
-    'exhaustive enumeration of origin-name lengths 0..65535 x 4 content patterns through the padding functions (hook) and lengths 0..130 (plus ten lengths up to 65000) / 0..4128 x 3 content patterns (letters, interior zero bytes, leading zero bytes) end to end through the real client and issuer with up to thirteen neighbour names per name (one client object per case), plus registered names that look like patterns or lists with look-alike neighbours',
+    'exhaustive enumeration of origin-name lengths 0..65535 x 4 content patterns through the padding functions (hook) and lengths 0..130 (plus ten lengths up to 65000) / 0..4128 x 3 content patterns (letters, interior zero bytes, leading zero bytes) end to end through the real client and issuer with up to thirteen neighbour names per name (one client object per case, issuers already in service when the origin is added), plus registered names that look like patterns or lists with look-alike neighbours',
     'unpad(pad(name)) == name and |pad(name)| == 32*max(1,ceil(n/32)) for every length; the registered name is served and every neighbour (last byte changed, shortened, extended, padding-like suffixes, leading zero bytes added or removed) is refused; the wire length equals base + 32*blocks for every request.',
     'Names are drawn from content patterns per length; names that cannot be marshalled (> ~65200 bytes) are outside the end-to-end part.',
     'DESIGN.md 4 C20, 9.2b')
@@ -57,7 +57,7 @@ add("C04", "xenum+seqx", "model_checking",
     "Arbitrary accepted strings are represented by the structured generators; contents of an object after a rejected Unmarshal are treated as unspecified; hand encoders are the trusted reference of the wire format.",
     "DESIGN.md 4 C04")
 add("C08", 'seqx', 'model_checking',
-    'depth-bounded explicit-state enumeration of request histories (origin x blind x anonymous-id choice per step, re-registration of an origin with another index key) of one client on ONE live issuer and attester (successors by history replay), every step the full client/attester/issuer flow, against an independent HKDF / hash_to_field / crypto/elliptic reference; blinds include 2^384-1 and a 64-byte blind; per origin a request with a second request of the same client in flight at the attester; plus five spellings of the client key and clients found by search whose (blinded) public key has a leading zero byte',
+    'depth-bounded explicit-state enumeration of request histories (origin x blind x anonymous-id choice per step, re-registration of an origin with another index key) of one client on ONE live issuer and attester (successors by history replay), every step the full client/attester/issuer flow, against an independent HKDF / hash_to_field / crypto/elliptic reference; blinds include 2^384-1, a 64-byte blind and zero; per origin a request with a second request of the same client in flight at the attester; plus five spellings of the client key and clients found by search whose (blinded) public key has a leading zero byte',
     "Every history of <= 2 (quick) / <= 3 (thorough) steps for 5 clients x 2 index-key sets: the returned ID equals the reference at every step (hence is stable across blinds, nonces, challenges, anonymous ids and history position and follows the registered index key), Evaluate's blinded request key equals f*requestKey, IDs returned earlier keep their bytes, whatever key spelling the attester accepts yields the client's ID, and the (client, index key) IDs are pairwise distinct.",
     'Client secrets, index keys and blinds are boundary-scalar alphabets; the reference (RFC 9380 XMD, HKDF-SHA-384) is in checks/c08/ref.go.',
     'DESIGN.md 4 C08, 9.2b')
@@ -67,7 +67,7 @@ add("C09", 'seqx', 'model_checking',
     'State merging assumes decisions depend on the dumped maps and the arguments only (the third search does not); event arguments are precomputed honest byte strings.',
     'DESIGN.md 4 C09, 9.2b')
 add("C14", "xenum+envx", "exploration",
-    "bounded exhaustive differential enumeration against crypto/ed25519 and math/big references: seeds x message lengths for derive/sign, every entropy-fault script with <= 1/2 deviations for GenerateKey (returned public key and Public() overwritten by the caller before signing), 54 A x 54 R x 17 S x 3 messages plus valid signatures for low-order keys over the whole S alphabet (R = [S]B + torsion) plus all bit flips for Verify (an honest signature is verified right after every case), all triples/pairs of a 309/786-scalar limb-boundary alphabet for the scalar arithmetic (alphabet closed under inversion), alphabet scalars x 14 points for the point operations",
+    "bounded exhaustive differential enumeration against crypto/ed25519 and math/big references: seeds x message lengths for derive/sign (also through crypto.Signer with entropy readers), every entropy-fault script with <= 1/2 deviations for GenerateKey (returned public key and Public() overwritten by the caller before signing), 54 A x 54 R x 17 S x 3 messages plus valid signatures for low-order keys over the whole S alphabet (R = [S]B + torsion) plus all bit flips for Verify (an honest signature is verified right after every case), all triples/pairs of a 309/786-scalar limb-boundary alphabet for the scalar arithmetic (alphabet closed under inversion), alphabet scalars x 14 points for the point operations",
     "Byte equality with the standard library for key derivation and signatures, identical read sequence and results under every enumerated entropy script, identical Verify verdicts on torsion/non-canonical/boundary inputs, and agreement of the internal scalar/point arithmetic with math/big and an affine Edwards reference (through the verif hook).",
     "Arithmetic equivalence is reached only through the boundary alphabets (limb patterns, q*L+r bands): a wrong carry needing an operand outside them is invisible. This is the thinnest claim of the set.",
     "DESIGN.md 4 C14")
@@ -78,7 +78,7 @@ add("C15", 'xenum+seqx', 'exploration',
     'DESIGN.md 4 C15, 9.2b')
 
 add("C06", 'xenum', 'exploration',
-    "bounded exhaustive enumeration of (request, blind, client key) inputs to the real attester: every single-bit flip of each of the six inputs of 2/4 honest triples (also with the request object's encoding cached, also with the client already registered), every signature length 0..97, 9x9 boundary (r,s) pairs, foreign signatures / blinds / keys, malformed key encodings, blinds that are not scalars (2^384-1, 64 bytes, 49 bytes), fields of non-wire lengths, a foreign request key with contents signed by the client's blinded key, anonymous origin ids of other lengths, key and blind bytes cut at another place after acceptance, the next request written over the accepted one in the caller's buffers, ciphertexts of 65535/65536/65537 bytes; reference verdict from crypto/ecdsa and an independent key-blinding reference; cache watched for writes",
+    "bounded exhaustive enumeration of (request, blind, client key) inputs to the real attester: every single-bit flip of each of the six inputs of 2/4 honest triples (also with the request object's encoding cached, also with the client already registered), every signature length 0..97, 9x9 boundary (r,s) pairs, foreign signatures / blinds / keys, malformed key encodings, blinds that are not scalars (2^384-1, 64 bytes, 49 bytes), fields of non-wire lengths, a foreign request key with contents signed by the client's blinded key, the unblinded client key with degenerate blinds, anonymous origin ids of other lengths, key and blind bytes cut at another place after acceptance, the next request written over the accepted one in the caller's buffers, ciphertexts of 65535/65536/65537 bytes; reference verdict from crypto/ecdsa and an independent key-blinding reference; cache watched for writes",
     'VerifyRequest returns nil exactly when the signature verifies under the request key over the hand-rebuilt message and the request key equals the client key multiplied by the reference blinding factor; every rejected request leaves the cache dump and Put count unchanged.',
     'Honest triples use boundary-scalar secrets and blinds; requests are handed over as structs as the API takes them.',
     'DESIGN.md 4 C06, 9.2b')
@@ -88,7 +88,7 @@ add("C12", "xenum", "exploration",
     "Scalars, blinds (incl. zero, leading-zero, >= N and over-long encodings; one signature object is shown to all verifiers in turn), contexts and digests come from boundary alphabets; P-224 is pinned to (SHA-256, L=32) as in the code, no RFC suite fixes it.",
     "DESIGN.md 4 C12")
 add("C13", "xenum+envx", "exploration",
-    "bounded exhaustive differential enumeration against crypto/ecdsa: 18x18 boundary (r,s) pairs around honest signatures x digest variants, signatures constructed around nonce points with affine x in [N,P) or a tiny x (shortest DER) under the public key recovered from them, signatures made backwards for public keys with x = 0..5, ~1000-1700 DER mutations per honest ASN.1 signature, cross acceptance of every producer, and every entropy-fault script with <= 1/2 deviations for key generation and the signing entry points",
+    "bounded exhaustive differential enumeration against crypto/ecdsa: 18x18 boundary (r,s) pairs around honest signatures x digest variants, signatures constructed around nonce points with affine x in [N,P) or a tiny x (shortest DER) under the public key recovered from them, signatures made backwards for public keys with x = 0..5, key generation on boundary entropy blocks, ~1000-1700 DER mutations per honest ASN.1 signature, cross acceptance of every producer, and every entropy-fault script with <= 1/2 deviations for key generation and the signing entry points",
     "Verify/VerifyASN1 verdicts equal the standard library's on every case; every signature produced here verifies there and vice versa; an entropy reader error at any enumerated read position yields an error and no key/signature, and short reads without error yield the same result as the default script (both MaybeReadByte coin outcomes observed per script).",
     "Valid public keys only (an off-curve key panics inside crypto/elliptic by design); values outside the boundary sets are not covered.",
     "DESIGN.md 4 C13")
@@ -105,7 +105,7 @@ add("C07", "xenum", "exploration",
     "DESIGN.md 4 C07")
 
 add("C02", 'xenum', 'exploration',
-    'bounded exhaustive enumeration of responses handed to the real client finalization of all four token types: every single-bit flip, truncation and 3 extensions of honest responses, the full (issuer key) x (state of request i) x (response for request j) matrices, caller-supplied salts of six boundary lengths for type 2, the honest response after a refused one on the same state, a second finalization on the same state after the caller scrubbed the tokens of the first and wrote the next response over the first in the same buffer (honest and corrupted responses), and for type 5 every sequence of element indices up to length n+1 both spliced into the honest response and evaluated afresh by the real key',
+    'bounded exhaustive enumeration of responses handed to the real client finalization of all four token types: every single-bit flip, truncation and 3 extensions of honest responses, the full (issuer key) x (state of request i) x (response for request j) matrices, caller-supplied salts of six boundary lengths for type 2, the honest response after a refused one on the same state, an issuer key of 3072 bits, one more request of the same client object while the judged ones are outstanding, a second finalization on the same state after the caller scrubbed the tokens of the first and wrote the next response over the first in the same buffer (honest and corrupted responses), and for type 5 every sequence of element indices up to length n+1 both spliced into the honest response and evaluated afresh by the real key',
     "Finalization returns an error, or every returned token verifies under the pinned key with an independent verifier and carries the request's nonce, challenge digest and key id (the caller's argument buffers are overwritten after request creation); additionally the classes the statement lists (single-bit corruption, other issuer key, other request, dropped/duplicated/reordered elements) must be rejected outright.",
     'Requests, keys, nonces are fixed alphabets (2/4 requests x 2/3 keys per type); truncations and extensions are judged semantically only.',
     'DESIGN.md 4 C02, 9.2')
@@ -117,7 +117,7 @@ add("C16", 'xenum+seqx', 'model_checking',
     'DESIGN.md 4 C16, 9.2b')
 
 add("C17", 'vsched', 'model_checking',
-    'stateless schedule exploration with a pre-emption bound (quick: bound 1, coarse granularity; thorough: fine granularity bound 1, then coarse granularity bound 2) of 35 scenarios (2-3 goroutines, one call each - in one scenario one, four and four calls - on one shared issuer, attester or key: freshly constructed, with a sequential history of rejected and served requests, built over a key object its owner has already used or assembled from raw numbers; one blinding key shared by all calls) over pat-go sources instrumented with scheduling points, executed under a cooperative scheduler that is invisible to the Go race detector, so that every explored schedule is also checked for data races by happens-before analysis',
+    'stateless schedule exploration with a pre-emption bound (quick: bound 1, coarse granularity; thorough: fine granularity bound 1, then coarse granularity bound 2) of 37 scenarios (2-3 goroutines, one call each - in one scenario one, four and four calls - on one shared issuer, attester or key: freshly constructed, with a sequential history of rejected and served requests, built over a key object its owner has already used or assembled from raw numbers; one blinding key shared by all calls) over pat-go sources instrumented with scheduling points, executed under a cooperative scheduler that is invisible to the Go race detector, so that every explored schedule is also checked for data races by happens-before analysis',
     "For each of >10^4 distinct schedules per run: no race report on any memory (pat-go, circl, math/big, standard library), every call's result is one a sequential call could have produced (responses finalize to valid tokens, key ids / blinded keys / signatures equal the sequential ones, forged tokens rejected), no deadlock, no panic. Finds data races (lazy initialisation, in-place normalisation, memoisation, shared scratch buffers, counters, self-reordering lists) and race-free atomicity bugs (correctly locked check-then-act, CAS flag instead of sync.Once).",
     "Dependencies are atomic steps of a schedule (their races are still detected); coarse granularity = statements in tokens/ and in every function that mentions a package-level variable, function entries elsewhere; the race detector's bounded shadow history means a given race is reported in some schedules only.",
     'DESIGN.md 3.4, 4 C17, 9.2')
